@@ -12,6 +12,7 @@ import (
 
 	"github.com/pkg/errors"
 	"github.com/pkg/xattr"
+	"golang.org/x/sys/unix"
 )
 
 // NewLocalFS initializes a new instance of a local filesystem that
@@ -96,7 +97,15 @@ func (fs *LocalFS) SetSymlinkPermissions(n NodeSymlink) error {
 		}
 	}
 
-	return nil
+	// os.Chtimes follows symlinks, set the time of the link itself
+	if n.MTime == time.Unix(0, 0) {
+		return nil
+	}
+	ts, err := unix.TimeToTimespec(n.MTime)
+	if err != nil {
+		return err
+	}
+	return unix.UtimesNanoAt(unix.AT_FDCWD, dst, []unix.Timespec{ts, ts}, unix.AT_SYMLINK_NOFOLLOW)
 }
 
 func (fs *LocalFS) CreateDevice(n NodeDevice) error {
